@@ -448,6 +448,17 @@ def fwd_shapes() -> list[dict]:
 _case_no = [0]
 
 
+def reference_converter():
+    """an independent copy of the bundled converter module (its own cattrs.Converter, no history), used by the
+    oracle to ask what a converter that has seen nothing returns"""
+    import importlib.util
+    import pyopenapi_gen.core.cattrs_converter as cc
+    spec = importlib.util.spec_from_file_location("pyopenapi_gen.core._cattrs_converter_ref", cc.__file__)
+    mod = importlib.util.module_from_spec(spec)
+    spec.loader.exec_module(mod)
+    return mod
+
+
 def fresh_converter():
     """a fresh bundled converter module = a converter with empty history (the model's st0)"""
     import pyopenapi_gen.core.cattrs_converter as cc
@@ -680,7 +691,21 @@ def run_conv(case: dict) -> dict:
             elif k == "raw":
                 do_structure(st["ty"], st["doc"], raw=True)
             elif k == "encode":
-                do_unstructure(st["val"])
+                obj = to_py(st["val"], built)
+                ob = do_unstructure(st["val"], obj)
+                # the encoding must not depend on what this converter did before
+                try:
+                    ref = reference_converter().unstructure_to_dict(obj)
+                    rc = canon(ref, rev)
+                    rob: Any = ["ok", rc] if is_json(rc) else ["Other", "non-JSON"]
+                except NotModelled:
+                    raise
+                except BaseException as e:  # noqa: BLE001
+                    rob = ["Other", type(e).__name__]
+                if rob[0] != ob[0] or (rob[0] == "ok" and rob[1] != ob[1]):
+                    fails.append("encoding depends on the converter's history: a converter that has seen nothing gives "
+                                 f"{json.dumps(untag(rob[1]))[:150] if rob[0] == 'ok' else rob} , this one "
+                                 f"{json.dumps(untag(ob[1]))[:150] if ob[0] == 'ok' else ob}")
     finally:
         sys.modules.pop(mod.__name__, None)
     return {"input": case, "obs": ops, "oracle_fail": fails, "stats": stats}
@@ -1091,7 +1116,7 @@ def main(chk: Check, replay: dict | None = None) -> int:
         if bad:
             chk.broken.append({"kind": "guard", "name": "reach (registration walk of the model) is not closed",
                                "mismatches": len(bad), "first": {"input": bad[0]["input"], "obs": None}})
-    chk.decide(cases, codes, {1: "F16a"},
+    chk.decide(cases, codes, {1: "F16a", 4: "F16b"},
                "Corr.C16.run: run_ops / serialize_top (model) = structure_from_dict / unstructure_to_dict / "
                "DataclassSerializer.serialize observed on real dataclasses")
     return chk.finish(TRUSTED,
